@@ -209,6 +209,11 @@ pub fn create_approx_matrices(problem: &ApiProblem) -> Vec<Matrix> {
         .collect::<HashSet<_>>();
     let speeds = speeds.into_iter().map(Float::from_bits).collect::<Vec<_>>();
 
+    // NOTE no profiles, no matrices: this is called before validation which reports empty profiles
+    if speeds.is_empty() {
+        return vec![];
+    }
+
     let locations = get_unique_locations(problem)
         .into_iter()
         .filter(|location| !matches!(location, ApiLocation::Custom { .. }))
